@@ -253,7 +253,7 @@ CHECKS["C05"] = (
     "kernel model, which is run from a state whose every scratch cell holds junk (a cell read before it is written, i.e. dependence on earlier "
     "calls, shows as a disagreement with the closed form); accepted sets equal for equal seeds across paths. C05_history_independent: the "
     "generated worker's value depends only on the configuration arrays, whatever the scratch buffers hold, for oracles that read only their block "
-    "(proved of the executable oracles). Partial: process scheduling is exercised, not modelled.",
+    "(proved of the executable oracles). Schedules (Props/C05s.v): Model/Sched.v models a pool whose workers each have private state and complete tasks in any order on any worker; C05_file_path_every_schedule proves, for the generated kernel and the generated batch_tasks, every n_batches >= 1, all worker states that agree with a fresh helper on the configuration and EVERY complete schedule, that slot i holds the fresh helper's values for batch i and the concatenation is the per-row values in library order. Real OS scheduling can only choose among these schedules; a crashing worker process is not modelled.",
     "Trusted: Coq kernel + vm_compute; translators py2v_batch / pyx2v (fail-closed); schwimmbad pool.map order; dill for pickling the helper (stdlib "
     "pickle cannot serialise pymc objects here, the test-suite uses dill too).",
     "DESIGN.md 3 (C05)",
